@@ -213,6 +213,10 @@ def residual_routine_contract():
             eq("free_block_is_diagonal", chol[n_given:, :] * (1.0 - jnp.eye(chol.shape[0])[n_given:, :]), 0.0),
             holds("every_added_coefficient_is_a_degree_of_freedom", jnp.all(jnp.diagonal(chol)[n_given:] > 0)),
         ]
+        # the returned coefficients are exactly the solver's answer (here: mean + L L^T w), unravelled coefficient by coefficient
+        answer = mean + chol @ (chol.T @ w)
+        for j in range(k + num):
+            cl.append(eq(f"returned_coefficient_{j}_is_the_solver_answer", tcoeffs[j], answer[j * m : (j + 1) * m]))
         coords = [probe[i * m : (i + 1) * m] for i in range(nargs)]
         cl.append(eq("objective_is_the_residual_of_the_leading_coefficients_at_t", at_probe, r(*coords, t)))
         return cl
